@@ -16,6 +16,7 @@ from ..core.loader import AnalysisError, Project
 from .common import const_value, expand_locals, local_names, own_analysis
 
 MOD = "persim.gromov_hausdorff"
+GH = MOD + ".gromov_hausdorff"
 RNG_PREFIXES = ("numpy.random.", "random.", "secrets.", "os.urandom")
 
 
@@ -490,9 +491,57 @@ def _int_test_semantics(cmpop: ast.Compare, value_name: str):
     return True, None
 
 
+def _int_semantic(project: Project, rep, fi) -> str:
+    """GH-INT decided by evaluating determine_optimal_int_type at the values where the answer changes: the largest value of
+    int8 / int16 / int32 and the value just above each, 0, 2**62 (int64) and 2**64 (no type: must raise).  Exact: every test
+    in the function is then a comparison of known numbers."""
+    from ..core.absint import Config, Interp
+    from ..core import sym
+    from ..core.values import FuncV, Sc
+    if not fi.params:
+        return "unmodelled"
+    want = [(0, "int8"), (127, "int8"), (128, "int16"), (32767, "int16"), (32768, "int32"), (2 ** 31 - 1, "int32"),
+            (2 ** 31, "int64"), (2 ** 62, "int64"), (2 ** 64, None)]
+    bad = []
+    for v, t in want:
+        I = Interp(project, Config())
+        try:
+            r = I.run(fi.qualname, {fi.params[0]: Sc(sym.Num(float(v)))})
+        except AnalysisError:
+            return "unmodelled"
+        if I.unmodelled or I.lossy:
+            return "unmodelled"
+        raised = [ev for ev in I.log if ev["kind"] == "raise"]
+        rets = [ev for ev in I.log if ev["kind"] == "return" and ev["fi"] is fi]
+        if t is None:
+            if not raised or rets:
+                bad.append((v, "no type can hold it, yet " + (f"{r!r} is returned" if rets else "nothing is raised")))
+            continue
+        got = r.target.rsplit(".", 1)[-1] if isinstance(r, FuncV) and isinstance(r.target, str) else None
+        if got is None and not raised:
+            return "unmodelled"
+        if got != t:
+            bad.append((v, f"{'an exception' if got is None else 'numpy.' + got} instead of numpy.{t}"))
+    if bad:
+        v, why = bad[0]
+        rep.refuted("GH-INT", fi, fi.node, f"determine_optimal_int_type({v}) gives {why}" +
+                    (f" ({len(bad)} of {len(want)} probes differ)" if len(bad) > 1 else "") +
+                    ": distances are cast to a type that cannot hold them, or to an unsigned one (differences wrap)",
+                    construct=f"{fi.qualname}: type chosen for {v}")
+        return "refuted"
+    rep.discharged("GH-INT", fi, fi.node, f"evaluated at {len(want)} values around the type limits: the narrowest signed type that "
+                                          f"holds the value is returned (int8 … int64), and a value beyond int64 raises")
+    rep.discharged("GH-INT", fi, fi.node, "signed types only (a subtraction of distances cannot wrap)", nontrivial=False)
+    return "ok"
+
+
 def check_int(project: Project, rep):
     fi = project.function(f"{MOD}.determine_optimal_int_type")
     rep.analysed(fi)
+    st_sem = _int_semantic(project, rep, fi)
+    if st_sem != "unmodelled":
+        _estimate_rejects_floats(project, rep)
+        return
     from .common import fn_view
     f = fn_view(project, fi)
     ladder = None
@@ -534,6 +583,10 @@ def check_int(project: Project, rep):
                                             "next wider type)")
     else:
         rep.refuted("GH-INT", fi, cmpop, f"feasibility test `{t}` is not `value <= iinfo(type).max`")
+    _estimate_rejects_floats(project, rep)
+
+
+def _estimate_rejects_floats(project: Project, rep):
     # estimate rejects non-integer matrices
     est = project.function(f"{MOD}.estimate")
     txt = ast.unparse(est.node)
@@ -594,6 +647,102 @@ def check_det(project: Project, rep):
         rep.refuted("GH-DET", project.function(q), n, f"{t} is called outside the upper-bound heuristic")
 
 
+def check_result_semantic(project: Project, rep) -> str:
+    """GH-RESULT: `gromov_hausdorff` is evaluated with the per-pair work stubbed (distance matrix of graph k = dm(g_k), bounds of
+    a pair = lb/ub(dm(g_i), dm(g_j))).  For a collection of n = 2, 3, 4 graphs the two results must be n×n arrays holding
+    lb/ub(dm(g_i), dm(g_j)) at [i, j] and [j, i] for every i < j and 0 on the diagonal; for the two-argument call they must
+    be the two scalars lb/ub(dm(g_0), dm(g_1)).  Returns ok / refuted / unmodelled."""
+    from ..core.absint import Config, Interp
+    from ..core import sym
+    from ..core.values import Arr, NoneV, Sc, Seq
+    fi = project.function(GH)
+    est, dmq = f"{MOD}.estimate", f"{MOD}.make_distance_matrix_from_adjacency_matrix"
+    if est not in project.functions or dmq not in project.functions:
+        rep.unmodelled("GH-RESULT", fi, fi.node, "estimate / make_distance_matrix_from_adjacency_matrix not found")
+        return "unmodelled"
+    if len(fi.params) < 2:
+        rep.unmodelled("GH-RESULT", fi, fi.node, f"unexpected signature {fi.params}")
+        return "unmodelled"
+
+    def stub_est(I, bound, node):
+        vals = [v for v in bound.values() if isinstance(v, Sc) and v.e is not None and v.e[0] == "opq" and v.e[1] == "dm"]
+        if len(vals) != 2:
+            return I.unknown("estimate-arguments", node)
+        return Seq([Sc(sym.Opq("lb", (vals[0].e, vals[1].e), None)), Sc(sym.Opq("ub", (vals[0].e, vals[1].e), None))], "tuple")
+
+    def stub_dm(I, bound, node):
+        a = list(bound.values())[0]
+        if not (isinstance(a, Sc) and a.e is not None and a.e[0] == "sym"):
+            return I.unknown("distance-matrix-argument", node)
+        return Sc(sym.Opq("dm", (a.e,), None))
+
+    def go(args):
+        I = Interp(project, Config(flags={"stub_func": {est: stub_est, dmq: stub_dm}}))
+        r = I.run(GH, args)
+        return I, r
+    g = lambda k: Sc(sym.Sym(f"g{k}"))
+    want = lambda nm, i, j: sym.Opq(nm, (sym.Opq("dm", (sym.Sym(f"g{i}"),), None), sym.Opq("dm", (sym.Sym(f"g{j}"),), None)), None)
+    status = "ok"
+    n_cells = 0
+    for n in (2, 3, 4):
+        try:
+            I, r = go({fi.params[0]: Seq([g(k) for k in range(n)], "list"), fi.params[1]: NoneV()})
+        except AnalysisError as ex:
+            rep.unmodelled("GH-RESULT", fi, fi.node, f"collection of {n}: {ex}"[:160])
+            return "unmodelled"
+        rets = [ev for ev in I.log if ev["kind"] == "return" and ev["fi"] is fi]
+        node = rets[-1]["node"] if rets else fi.node
+        if I.unmodelled or I.lossy:
+            why = I.lossy[0]["why"] if I.lossy else "unmodelled value: " + I.unmodelled[0]["tag"]
+            rep.unmodelled("GH-RESULT", fi, node, f"collection of {n} graphs: the call could not be followed exactly ({why})")
+            return "unmodelled"
+        if not (isinstance(r, Seq) and len(r.items) == 2):
+            rep.refuted("GH-RESULT", fi, node, f"collection of {n} graphs: the call does not return a pair (lower bounds, upper "
+                                               f"bounds): {r!r}"[:200], construct=f"{GH}: result of a collection call")
+            return "refuted"
+        for nm, v in zip(("lb", "ub"), r.items):
+            if not (isinstance(v, Arr) and v.ndim == 2 and all(sp.concrete == n for sp, _ in v.axes)):
+                rep.refuted("GH-RESULT", fi, node,
+                            f"collection of {n} graphs: the {'lower' if nm == 'lb' else 'upper'} bounds are {v!r}"[:160] +
+                            f" instead of a {n}×{n} matrix", construct=f"{GH}: result of a collection call")
+                status = "refuted"
+                continue
+            (s0, i0), (s1, i1) = v.axes
+            for i in range(n):
+                for j in range(n):
+                    e = sym.subst_ivar(sym.subst_ivar(v.elem, i0, i), i1, j)
+                    w = sym.ZERO if i == j else want(nm, min(i, j), max(i, j))
+                    n_cells += 1
+                    if e != w:
+                        rep.refuted("GH-RESULT", fi, node,
+                                    f"collection of {n} graphs: entry [{i}, {j}] of the {'lower' if nm == 'lb' else 'upper'} bounds is "
+                                    f"{sym.show(e)[:70]} instead of {sym.show(w)[:70]}", construct=f"{GH}: bounds matrix entry")
+                        status = "refuted"
+                        break
+                else:
+                    continue
+                break
+    try:
+        I, r = go({fi.params[0]: g(0), fi.params[1]: g(1)})
+    except AnalysisError as ex:
+        rep.unmodelled("GH-RESULT", fi, fi.node, f"two-argument call: {ex}"[:160])
+        return "unmodelled"
+    if I.unmodelled or I.lossy:
+        rep.unmodelled("GH-RESULT", fi, fi.node, "two-argument call: could not be followed exactly")
+        return "unmodelled"
+    ok2 = isinstance(r, Seq) and len(r.items) == 2 and all(isinstance(x, Sc) for x in r.items) \
+        and r.items[0].e == want("lb", 0, 1) and r.items[1].e == want("ub", 0, 1)
+    if not ok2:
+        rep.refuted("GH-RESULT", fi, fi.node, f"two-argument call: returns {r!r}"[:200] + " instead of the two bounds of the pair",
+                    construct=f"{GH}: result of a pair call")
+        status = "refuted"
+    if status == "ok":
+        rep.discharged("GH-RESULT", fi, fi.node, f"evaluated for collections of 2, 3 and 4 graphs ({n_cells} entries: each pair's "
+                                                 f"bounds at [i, j] and [j, i], zero diagonal) and for the two-argument call (two "
+                                                 f"scalars)")
+    return status
+
+
 def run(project: Project, rep, tier: str):
     rep.explain(
         "C17 (clauses decided): site rules over the mGH module with call resolution through the import table. GH-COERCE: "
@@ -605,10 +754,25 @@ def run(project: Project, rep, tier: str):
         "invariance.")
     fi, _ = check_coerce(project, rep)
     check_lcc(project, rep, fi)
-    check_sym(project, rep)
+    # GH-RESULT evaluates the entry point itself; GH-SYM reads the shapes it knows and gives way when the result was decided
+    from ..core.report import Report
+    pre = Report("C17-result")
+    st_res = check_result_semantic(project, pre)
+    if st_res != "unmodelled":
+        check_result_semantic(project, rep)
+    pre_s = Report("C17-sym")
+    check_sym(project, pre_s)
+    if st_res == "ok" and (pre_s.errors or pre_s.refutations):
+        rep.discharged("GH-SYM", project.function(GH), project.function(GH).node,
+                       "the bounds matrices are assembled in a way the site rule does not read; their contents were decided by "
+                       "GH-RESULT", nontrivial=False)
+        sym_floor = 1
+    else:
+        check_sym(project, rep)
+        sym_floor = 5
     check_int(project, rep)
     check_det(project, rep)
-    for rn, n in (("GH-COERCE", 3), ("GH-LCC", 2), ("GH-SYM", 5), ("GH-INT", 3), ("GH-DET", 2)):
+    for rn, n in (("GH-COERCE", 3), ("GH-LCC", 2), ("GH-SYM", sym_floor), ("GH-INT", 3), ("GH-DET", 2)):
         rep.floor(rn, n)
     for t in ("scipy.sparse.csgraph.shortest_path", "scipy.sparse.csgraph.connected_components", "numpy.tril_indices"):
         rep.trust(t)
